@@ -208,7 +208,7 @@ func thrScenarios(tier string) []*mc.Scenario {
 			// reset throttle: fan resources, 2 connections on the first one
 			sc := &mc.Scenario{
 				Name:  fmt.Sprintf("thr/reset/N%d-M%d", n, fan),
-				Props: []string{"C19"},
+				Props: []string{"C19", "C06"}, // a re-check that never leaves the throttle is a trigger without a verdict
 				Cfg:   func(c *server.Config) { c.ResetThrottle = n },
 				Init: func(w *mc.World) {
 					for _, nm := range names[:fan] {
